@@ -86,6 +86,7 @@ def check_project_spec(ctx, spec):
     # "every file the library writes": the other ways of writing (write_to a stream / a file opened
     # for writing, appending or updating) produce these same bytes, which are decoded below
     iovariants.writers_agree(p, data, "C03")
+    iovariants.copies_agree(p, data, "C03")
     try:
         conform(data, snap, "project")
     except Exception as e:
@@ -105,6 +106,7 @@ def check_module_spec(ctx, ms):
     snap = snapshot.snap_synth(s)
     data = s.read()
     iovariants.writers_agree(s, data, "C03")
+    iovariants.copies_agree(s, data, "C03")
     try:
         conform(data, snap, "synth %s" % ms["type"])
     except ChunkFormatError as e:
